@@ -86,6 +86,9 @@ func (a *Act) rootsOf(li *loopInfo, v ssa.Value, visited map[ssa.Value]bool) (ro
 			if fc := a.u.E.Contracts[callee]; fc != nil && resultIsFresh(fc) {
 				return nil, true // the contract promises a freshly allocated result
 			}
+			if freshSliceIntrinsics[intrinsicKey(callee)] {
+				return nil, true // modelled as returning a freshly allocated slice
+			}
 		}
 		return nil, false
 	case *ssa.Slice:
@@ -1159,6 +1162,9 @@ func (a *Act) isAccumulator(li *loopInfo, phi *ssa.Phi, hm *heapMod) bool {
 	}
 	return true
 }
+
+// freshSliceIntrinsics: library functions modelled by pureFresh whose slice result is newly allocated.
+var freshSliceIntrinsics = map[string]bool{"strings.Split": true, "strings.SplitN": true, "strings.Fields": true}
 
 // resultIsFresh: the contract has a top-level conjunct fresh(result) in some ensures clause.
 func resultIsFresh(fc *FuncContract) bool {
